@@ -86,4 +86,17 @@ func VerifC09_Propagation() {
 	if ierr == nil && st != nil && !st.Revoked {
 		verifrt.Assert(!isListed, "'not revoked' is only ever said about unlisted certificates")
 	}
+	// the fault persists: asking again (the next handshake) must not turn it into 'not revoked' either
+	if fault == 1 || fault == 2 {
+		st2, ierr2 := w.repo.IsRevoked(cert("CN=I1", probe, url1), l)
+		if fault == 1 {
+			verifrt.Assert(ierr2 != nil, "closed store: the second lookup is an error as well")
+		} else if isListed {
+			verifrt.Assert(ierr2 != nil, "corrupted record: the second lookup is an error as well")
+		}
+		if ierr2 == nil && st2 != nil && !st2.Revoked {
+			verifrt.Assert(!isListed, "second lookup: 'not revoked' is only ever said about unlisted certificates")
+		}
+		verifrt.Reach("second-lookup")
+	}
 }
